@@ -118,7 +118,7 @@ CHECKS = {
                 note="Trusted: independent JSON normaliser; NaN and integer-valued costs excluded.",
                 ref="DESIGN.md §3 C10"),
     "C11": dict(cat="fault_enumeration", tech="crash injection: os._exit at every Python-level SQL/objective event (sqlite3.connect proxy), SIGKILL at seeded instants, kernel kill (SIGXFSZ via RLIMIT_FSIZE) inside the write() of a commit, strace-injected SIGKILL inside write syscalls (thorough); post-mortem verifier",
-                text="Four writers are killed at every enumerated crash point after the store exists; each death is followed by a "
+                text="Nine writers (serial and threaded algorithm runs, one large transaction, a sweep under lock contention, a second session resuming the file of a finished one) are killed at every enumerated crash point after the store exists; each death is followed by a "
                      "post-mortem (view opens, definitions intact, returned synchronisations present with matching costs, no partial "
                      "row, integrity_check ok). Thorough adds kills inside pwrite64/unlink of SQLite's commit via strace fault injection.",
                 note="Process death only (synchronous=0 makes power loss out of scope); RET log written with one write() on an O_APPEND fd.",
